@@ -27,6 +27,13 @@ def walker_recstar(MID, LOG):
     return m
 
 
+def walker_lazy(MID, LOG):
+    def m(x: list):
+        LOG.append((MID, None))
+        return ("w", MID, (recurse(e) for e in x))
+    return m
+
+
 def walker_recname(MID, LOG):
     def m(x: list):
         LOG.append((MID, None))
@@ -115,7 +122,7 @@ def placements(n, tier):
     if n >= 4:
         leaf_opts4 = [(), ("int",)]
     for w in range(n):
-        for kind in ("rec", "self", "recname", "selfname", "recstar"):
+        for kind in ("rec", "self", "recname", "selfname", "recstar", "lazy"):
             if n < 4:
                 for leaves in itertools.product(leaf_opts, repeat=n):
                     if any(leaves):
@@ -165,7 +172,7 @@ def ref_call(dag, own, kind, w, node, v, memo):
     mid = eff[t]
     if t != "list":
         return ("leaf", mid)
-    target = node if kind in ("rec", "recname", "recstar") else w
+    target = node if kind in ("rec", "recname", "recstar", "lazy") else w
     return ("w", mid, [ref_call(dag, own, kind, w, target, e, memo) for e in v])
 
 
@@ -201,11 +208,34 @@ def build(dag, w, kind, leaves, fault=None, late=None, link=False):
     return nodes, log, own
 
 
-def run(nodes, log, node, v):
+def _materialise(x):
+    import types
+
+    if isinstance(x, types.GeneratorType):
+        return [_materialise(e) for e in x]  # consuming it runs the pending recurse calls NOW
+    if isinstance(x, tuple):
+        return tuple(_materialise(e) for e in x)
+    if isinstance(x, list):
+        return [_materialise(e) for e in x]
+    return x
+
+
+def finish(payload, log):
+    try:
+        return ("ret", _materialise(payload))
+    except Exception as e:  # noqa
+        return (core.classify_exception(e, log), None)
+
+
+def run(nodes, log, node, v, hold=False):
     del log[:]
     ov = nodes[node]
     out = gen.run_call(getattr(ov, "dispatch", ov), (v,), {}, log)
-    return (out[0], out[2] if out[0] == "ret" else None)
+    if out[0] != "ret":
+        return (out[0], None)
+    if hold:
+        return ("held", out[2])  # a lazy walker's result: generators whose recurse calls are still pending
+    return finish(out[2], log)
 
 
 def check(dag, w, kind, leaves, order, acc, fault=None, late=None, link=False):
@@ -220,6 +250,13 @@ def check(dag, w, kind, leaves, order, acc, fault=None, late=None, link=False):
                 acc.h("failed_first_use", r[0])
             nodes[node].unregister(build.bad)
             run(nodes, log, node, INPUTS[0][1])
+    held = {}
+    if late is not None and kind == "lazy":
+        # results obtained BEFORE the late registration and consumed after it: the pending recurse calls run against
+        # the function as it is then
+        for node in range(len(dag)):
+            for vn, v in INPUTS:
+                held[(node, vn)] = run(nodes, log, node, v, hold=True)
     if late is not None:
         # a plain (never rewritten) leaf method arrives after every function was used: the walkers, adapted
         # long ago, must see it (through linked parents too)
@@ -233,6 +270,28 @@ def check(dag, w, kind, leaves, order, acc, fault=None, late=None, link=False):
             except RefNoMethod:
                 exp = ("nomethod", None)
             got = run(nodes, log, node, v)
+            h = held.get((node, vn))
+            if h is not None and h[0] == "held" and isinstance(v, list):
+                # the result that was held across the registration: the outer call was resolved BEFORE it (old method
+                # set), its pending element calls run now (new method set)
+                got_held = finish(h[1], log)
+                own_before = {k: {t: m for t, m in d.items() if (k, t) != tuple(late)} for k, d in own.items()}
+                eff_before = effective(dag, own_before, node, {})
+                try:
+                    exp_held = ("ret", ("w", eff_before["list"], [ref_call(dag, own, kind, w, node, e, memo) for e in v]))
+                except RefNoMethod:
+                    exp_held = ("nomethod", None)
+                if got_held[0] == "sigerror" and exp_held[0] == "nomethod":
+                    got_held = exp_held
+                if got_held != exp_held:
+                    disc = "pending-recursion-after-a-change"
+                    if acc is not None:
+                        acc.violation({"dag": [list(d) for d in dag], "walker": [w, kind], "leaves": [list(l) for l in leaves],
+                                       "order": list(order), "node": node, "input": vn, "fault": fault,
+                                       "late": list(late) if late else None, "link": link}, disc,
+                                      {"node": node, "input": vn, "expected": repr(exp_held)[:160], "held": repr(got_held)[:160]})
+                    else:
+                        found.append((disc, {"node": node, "input": vn}))
             if got[0] == "sigerror" and exp[0] == "nomethod":
                 got = exp
             if acc is not None:
@@ -307,7 +366,7 @@ def main(tier):
     return core.finish(
         PROP, tier, "model_checking", merged, t0,
         rule="all derivation DAGs with <= 4 functions (4 nodes: one first-use order in quick, 12 in thorough; fewer leaf placements) in which each derived function has one copied parent and 0-1 extra "
-             "mixins x every placement of one list walker (calling recurse, calling it with unpacked arguments - the run-time helper -, passing recurse as a value, calling or passing its own function by name) and of int / str leaf methods on "
+             "mixins x every placement of one list walker (calling recurse, calling it with unpacked arguments - the run-time helper -, calling it lazily inside a generator that is consumed after a later registration, passing recurse as a value, calling or passing its own function by name) and of int / str leaf methods on "
              "the nodes x all orders of first use of the nodes (and, for <= 3 nodes, the variant in which the first node used fails to build once on an invalid method, is repaired and used again; and the variants in which one plain leaf method is registered only after every node was used - on a node without children, or on any node when the derivation edges are linked) x nested inputs, probing every node; oracle: a reference interpreter "
              "(R5/R6) that re-enters the dispatching node for recurse and the defining node for a self-named walker; result trees "
              "record which node's method handled which element; non-trivial = non-empty list inputs with a defined result",
